@@ -149,6 +149,45 @@ type portfolio struct {
 	shares *big.Int // delegation with validator 0
 	allow  []*big.Int
 	pool   map[uint64]string // id -> amount+fee
+	// round 5: tokens in unbonding entries (all validators) and the delegation with validator 1 (the destination of the
+	// histories' redelegations) in 10^-18 share units — nobody but the account itself may reduce either
+	unbond  *big.Int
+	shares1 *big.Int
+}
+
+// unbondOn0: tokens in the unbonding entries of `who` with validator 0 (what undelegateV2 of the histories creates)
+func (e *env) unbondOn0(ctx sdk.Context, who common.Address) *big.Int {
+	sum := new(big.Int)
+	if ubd, err := e.s.App.StakingKeeper.GetUnbondingDelegation(ctx, who.Bytes(), e.s.ValAddr[0]); err == nil {
+		for _, en := range ubd.Entries {
+			sum.Add(sum, en.Balance.BigInt())
+		}
+	}
+	return sum
+}
+
+// unbondAll: tokens in all unbonding entries of `who`
+func (e *env) unbondAll(ctx sdk.Context, who common.Address) *big.Int {
+	sum := new(big.Int)
+	if ubds, err := e.s.App.StakingKeeper.GetAllUnbondingDelegations(ctx, who.Bytes()); err == nil {
+		for _, ubd := range ubds {
+			for _, en := range ubd.Entries {
+				sum.Add(sum, en.Balance.BigInt())
+			}
+		}
+	}
+	return sum
+}
+
+// rawOn1: the delegation of `who` with validator 1 in 10^-18 share units
+func (e *env) rawOn1(ctx sdk.Context, who common.Address) *big.Int {
+	if len(e.s.ValAddr) < 2 {
+		return new(big.Int)
+	}
+	if d, err := e.s.App.StakingKeeper.GetDelegation(ctx, who.Bytes(), e.s.ValAddr[1]); err == nil {
+		return d.Shares.BigInt()
+	}
+	return new(big.Int)
 }
 
 func (e *env) sharesOf(ctx sdk.Context, who common.Address) *big.Int {
@@ -185,6 +224,7 @@ func (e *env) portfolioOf(ctx sdk.Context, who common.Address, spenders []common
 	p := portfolio{pool: map[uint64]string{}}
 	p.funds = app.BankKeeper.GetBalance(cctx, who.Bytes(), fxtypes.DefaultDenom).Amount.BigInt()
 	p.shares = e.sharesOf(cctx, who)
+	p.unbond, p.shares1 = e.unbondAll(cctx, who), e.rawOn1(cctx, who)
 	q := distrkeeper.NewQuerier(app.DistrKeeper)
 	for _, v := range e.vals {
 		if r, err := q.DelegationRewards(cctx, &distrtypes.QueryDelegationRewardsRequest{DelegatorAddress: sdk.AccAddress(who.Bytes()).String(), ValidatorAddress: v}); err == nil {
@@ -485,6 +525,12 @@ func (e *env) compareHolders(out *hx.Out, before, after []*big.Int, desc string)
 func comparePortfolios(out *hx.Out, who string, pv, pa portfolio, moved *big.Int, spIdx int, succeeded bool, desc string) {
 	if pa.funds.Cmp(pv.funds) < 0 {
 		violate(out, fmt.Sprintf("funds of a non-caller (%s) reduced by %s (%s -> %s)", who, desc, pv.funds, pa.funds))
+	}
+	if pv.unbond != nil && pa.unbond != nil && pa.unbond.Cmp(pv.unbond) < 0 {
+		violate(out, fmt.Sprintf("unbonding entries of a non-caller (%s) reduced by %s (%s -> %s tokens)", who, desc, pv.unbond, pa.unbond))
+	}
+	if pv.shares1 != nil && pa.shares1 != nil && pa.shares1.Cmp(pv.shares1) < 0 {
+		violate(out, fmt.Sprintf("delegation of a non-caller (%s) with the redelegation destination (validator 1) reduced by %s (%s -> %s, 10^-18 shares)", who, desc, pv.shares1, pa.shares1))
 	}
 	drop := new(big.Int).Sub(pv.shares, pa.shares)
 	if drop.Sign() > 0 {
@@ -886,6 +932,12 @@ func phaseHistory(t *testing.T, e *env, rng *rand.Rand, out *hx.Out) {
 				out.Emit(fmt.Sprintf("set dust %d %s", a.id, d), "ok")
 			}
 			out.Emit(fmt.Sprintf("set bal %d %s", a.id, app.BankKeeper.GetBalance(cctx, a.addr.Bytes(), fxtypes.DefaultDenom).Amount), "ok")
+			if u := e.unbondOn0(cctx, a.addr); u.Sign() != 0 {
+				out.Emit(fmt.Sprintf("set unb %d %s", a.id, u), "ok")
+			}
+			if d := e.rawOn1(cctx, a.addr); d.Sign() != 0 {
+				out.Emit(fmt.Sprintf("set dst %d %s", a.id, d), "ok")
+			}
 		}
 		{
 			vt, vs := e.valRate(cctx)
@@ -910,11 +962,56 @@ func phaseHistory(t *testing.T, e *env, rng *rand.Rand, out *hx.Out) {
 		undelegations := map[int]int{}
 		redelegations := map[int]int{}
 		var lastApproved *pair
+		slashesLeft := 2
 		nOps := opsPer
 		if sq < len(corpus) {
 			nOps = len(corpus[sq])
 		}
 		for k := 0; k < nOps; k++ {
+			// round 5: the staking module slashes the validator BETWEEN two calls of the history (environment step `slash` of the
+			// model, Model/C10Env.lean): allowances are counted in shares and must not be re-valued, nobody's delegation record,
+			// unbonding entry or queued withdrawal may move, and the next delegate / undelegate / redelegate runs at the new rate
+			if sq >= len(corpus) && slashesLeft > 0 && k > 0 && rng.Intn(12) == 0 {
+				if val, err := app.StakingKeeper.GetValidator(cctx, e.s.ValAddr[0]); err == nil {
+					cons, _ := val.GetConsAddr()
+					pct := []int64{1, 5, 10, 33, 50}[rng.Intn(5)]
+					pr := app.StakingKeeper.PowerReduction(cctx)
+					power := val.GetConsensusPower(pr)
+					if pct <= 10 && rng.Intn(4) == 0 {
+						power *= 3 // evidence for a height at which the validator had more power (the burn stays below what it has now)
+					}
+					before := map[int]portfolio{}
+					for _, a := range accts {
+						before[a.id] = e.portfolioOf(cctx, a.addr, addrs)
+					}
+					if r := hx.Try(func() error {
+						_, err := app.StakingKeeper.Slash(cctx, cons, cctx.BlockHeight(), power, sdkmath.LegacyNewDecWithPrec(pct, 2))
+						return err
+					}); r == "ok" {
+						slashesLeft--
+						slashed = true
+						vt, vs := e.valRate(cctx)
+						out.Emit(fmt.Sprintf("slash %d %s %d", power, pr, pct), fmt.Sprintf("vt=%s vs=%s", vt, vs))
+						out.Count(fmt.Sprintf("hist:slash-between-calls:%d%%", pct))
+						out.Nontrivial(fmt.Sprintf("h|slash|%d", pct))
+						// the slash itself is not an act of any caller: every record of every account stays as it was
+						for _, a := range accts {
+							pa := e.portfolioOf(cctx, a.addr, addrs)
+							pv := before[a.id]
+							if pa.shares.Cmp(pv.shares) != 0 || pa.unbond.Cmp(pv.unbond) < 0 || pa.shares1.Cmp(pv.shares1) != 0 {
+								out.Count("hist:slash-between-calls:touched-a-record")
+							}
+							for i := range pv.allow {
+								if pv.allow[i].Cmp(pa.allow[i]) != 0 {
+									violate(out, fmt.Sprintf("allowance granted by account %d changed by a slash of the validator (%s -> %s): allowances are counted in shares", a.id, pv.allow[i], pa.allow[i]))
+								}
+							}
+						}
+					} else {
+						out.Count("hist:slash-between-calls-failed:" + r)
+					}
+				}
+			}
 			rt := routes[rng.Intn(len(routes))]
 			caller := byID[rt.caller]
 			kind := evmx.KCall
@@ -1324,7 +1421,14 @@ func phaseHistory(t *testing.T, e *env, rng *rand.Rand, out *hx.Out) {
 				obs = fmt.Sprintf("al=%s sa=%s sb=%s", allowOf(f, caller.id), sharesOf(f), sharesOf(toID))
 			case "delegateV2", "undelegateV2", "redelegateV2":
 				vt, _ := e.valRate(cctx)
-				obs = fmt.Sprintf("sa=%s du=%s vt=%s", sharesOf(caller.id), e.dustOf(cctx, caller.addr), vt)
+				obs = fmt.Sprintf("sa=%s du=%s vt=%s ub=%s", sharesOf(caller.id), e.dustOf(cctx, caller.addr), vt, e.unbondOn0(cctx, caller.addr))
+				if method == "redelegateV2" {
+					// round 5: what arrives at the destination validator (10^-18 shares of the caller there)
+					obs += " d1=" + e.rawOn1(cctx, caller.addr).String()
+				}
+				if method == "undelegateV2" && succeeded {
+					out.Count("hist:undelegate:unbonding-entry-compared")
+				}
 			case "withdraw":
 				obs = fmt.Sprintf("sa=%s", sharesOf(caller.id))
 			case "cancelSendToExternal", "increaseBridgeFee", "crossChain":
